@@ -46,6 +46,10 @@ type VictimOp struct {
 	// next on the same replica object - the way the cleaner goes on to the next
 	// candidate after a removal that failed - before it closes the replica
 	Next string `json:"next,omitempty"`
+	// Punch: the victim runs with space reclamation on (as a started replica does):
+	// duplicates of overwritten blocks are punched out of snapshot files by the
+	// CreateHoles goroutine, at write time and by the preload of an open
+	Punch bool `json:"punch,omitempty"`
 	// PreRebuilding: the victim sets the rebuilding flag (outside the traced window) before the operation
 	PreRebuilding bool `json:"prerebuilding,omitempty"`
 }
@@ -77,7 +81,7 @@ func victimMain() int {
 	}
 	dir := os.Getenv("VERIF_VICTIM_DIR")
 	types.MaxChainLength = envInt("VERIF_VICTIM_MAXCHAIN", 0)
-	types.ShouldPunchHoles = false
+	types.ShouldPunchHoles = op.Punch
 	go replica.CreateHoles()
 	s := replica.NewServer("127.0.0.1:9502", dir, 512, "")
 	if op.K != "open" {
